@@ -83,7 +83,7 @@ theorem tamper_changes_signbytes (H : Bytes → Bytes) (c c' : CheckCfg) (minfee
           rw [chainCheck_cons] at g'
           exact chain_headers H _ _ _ g'.2.2.2.2 y hy'
     intro x hx y hy hs
-    have := encode_injective (WF_stripSig (hw x hx)) (WF_stripSig (hw' y hy)) hs
+    have := encode_injective_aux (WF_stripSig (hw x hx)) (WF_stripSig (hw' y hy)) hs
     have h2 := congrArg Transaction.header this
     simp only [stripSig, cloneTx] at h2
     rw [hdr x hx, hdr' y hy] at h2
